@@ -5,11 +5,18 @@ ASSUMPTIONS = [
     'A-real: floating point treated as exact real/complex arithmetic in E1/E2; T3 compares with tolerance 1e-9*scale',
     'A-int: array sizes below 2^63 (Python ints are mathematical integers in E1)',
     'A-numpy: the NumPy/SciPy contract table of vt/e1/npmodel.py (shape, kind, aliasing, contiguity, may-write sets) '
-    'is assumed; it is differential-tested against the real NumPy on every thorough run, not proved',
+    'is assumed, not proved (the T3 runs exercise the same NumPy calls on the real code, which would expose a wrong shape rule as a crash, '
+    'but there is no separate differential test of the table)',
     'A-lapack: svd/qr/rq/solve/inv/eig/expm satisfy their mathematical definitions; overwrite_a may clobber its '
     'argument buffer and nothing else',
     'A-python: subset semantics of vt/e1/symexec.py (CPython evaluation order, no operator overloading besides TT)',
-    'A-solver: soundness of z3 5.1 (cvc5 used on z3 unknowns)',
+    'A-solver: soundness of z3 5.1 (the only solver used; `unknown` is never a verdict)',
+    'A-alloc: allocation model of E1 - object/list/buffer identities are integers handed out by a monotone watermark; every identity '
+    'in existence at a call is below the callee\'s entry watermark, everything a callee allocates lies between its entry and exit watermark',
+    'A-heap: tensor trains stored in trajectory lists are described by uninterpreted functions of their identity (vt/e1/heap.py); the '
+    'bound axioms H_top/H_bot are consistent by construction (finite id sets) but not proved inside z3',
+    'A-vacuity: where z3 cannot build a model of a quantified path condition the vacuity guard degrades to "no contradiction derivable '
+    'within the obligation budget" (counted in coverage.e1_vacuity_inconclusive)',
     'A-engine: the VC generator vt/e1 itself (mitigated by canary obligations that must be refuted on every run and '
     'by the seeded-change corpus under /verif/seeded)',
 ]
@@ -24,7 +31,7 @@ EXPL = ('Sidecar contracts on the real functions of /repo/scikit_tt. Three back 
 
 def meta(pid, functions=(), rule='', level='other', trusted=(), unverified=(), exhaustive=False):
     return {'pid': pid, 'level': level, 'explanation': EXPL, 'functions': list(functions), 'rule': rule,
-            'assumptions': list(ASSUMPTIONS), 'trusted_base': ['z3 5.1.0', 'cvc5 1.4.0', 'NumPy/SciPy contract table',
+            'assumptions': list(ASSUMPTIONS), 'trusted_base': ['z3 5.1.0', 'NumPy/SciPy contract table',
                                                                'vt/e1 VC generator'] + list(trusted),
             'unverified': list(unverified), 'exhaustive': exhaustive}
 
